@@ -42,6 +42,36 @@ impl J {
             J::Obj(m) => format!("{{{}}}", m.iter().map(|(k, v)| format!("\"{}\":{}", k, v.text())).collect::<Vec<_>>().join(",")),
         }
     }
+    /// The same document in a non-compact layout: insignificant white space around the structural characters
+    /// (RFC 8259 `ws`: space, tab, LF, CR) and, for `esc_keys`, one character of some member names written as a
+    /// `\uXXXX` escape. The tree it denotes is the same.
+    pub fn text_layout(&self, rng: &mut Rng, esc_keys: bool) -> String {
+        fn gap(rng: &mut Rng) -> &'static str {
+            *rng.pick(&["", "", " ", "\n", "\t", " \r\n ", "  "])
+        }
+        match self {
+            J::Arr(v) => {
+                let items: Vec<String> = v.iter().map(|x| format!("{}{}{}", gap(rng), x.text_layout(rng, esc_keys), gap(rng))).collect();
+                format!("[{}{}]", items.join(","), if v.is_empty() { gap(rng) } else { "" })
+            }
+            J::Obj(m) => {
+                let items: Vec<String> = m
+                    .iter()
+                    .map(|(k, v)| {
+                        let key = if esc_keys && !k.is_empty() && rng.chance(1, 4) {
+                            let at = rng.below(k.chars().count());
+                            k.chars().enumerate().map(|(i, c)| if i == at { format!("\\u{:04x}", c as u32) } else { c.to_string() }).collect::<String>()
+                        } else {
+                            k.clone()
+                        };
+                        format!("{}\"{}\"{}:{}{}{}", gap(rng), key, gap(rng), gap(rng), v.text_layout(rng, esc_keys), gap(rng))
+                    })
+                    .collect();
+                format!("{{{}{}}}", items.join(","), if m.is_empty() { gap(rng) } else { "" })
+            }
+            other => other.text(),
+        }
+    }
     pub fn sexpr(&self) -> String {
         match self {
             J::Null => "n".into(),
@@ -473,9 +503,11 @@ pub fn main_reply(o: &Opts) {
                 let mut r2 = Rng::new(rng.next());
                 em.case(|| {
                     let j = gen_reply(&p, &e, &mut r2);
-                    let text = j.text();
+                    // every other case: the same document in a non-compact layout (white space around tokens,
+                    // member names partly written as \u escapes) - what a frame *means* does not depend on it
+                    let text = if r2.chance(1, 2) { j.text() } else { j.text_layout(&mut r2, true) };
                     let c = classify(pn, en, text.as_bytes());
-                    vec![format!("reply P {ps} E {es} J {} => {c}", j.sexpr())]
+                    vec![format!("reply P {ps} E {es} J {} L {} => {c}", j.sexpr(), hex(text.as_bytes()))]
                 });
             }
         }
